@@ -14,7 +14,7 @@ import gen
 import vlib
 from vlib import Report, ToolError, cached, cargo_build_or_die, log, mkscratch, rmtree
 
-DEPS = ["spec/Grammar.tla", "spec/CanonLR.tla", "spec/Sem.tla", "spec/SemVal.tla", "spec/Cfg.tla", "spec/Prec.tla", "spec/Macro.tla", "spec/Gen.tla", "spec/MCEval.cfg", "spec/LRMachine.tla", "spec/MCRun.cfg", "tools/core.py", "tools/eng_core.py",
+DEPS = ["spec/Grammar.tla", "spec/CanonLR.tla", "spec/Sem.tla", "spec/SemVal.tla", "spec/Cfg.tla", "spec/Prec.tla", "spec/Macro.tla", "spec/Gen.tla", "spec/MCEval.cfg", "spec/LRMachine.tla", "spec/MCRun.cfg", "spec/TraceLR.tla", "spec/TraceLR.cfg", "tools/core.py", "tools/eng_core.py",
         "tools/c_core.py", "tools/gen.py", "tools/lp.py", "tools/vlib.py", "harness/crates/runner", "harness/crates/lpdrv",
         "harness/Cargo.toml", "harness/.cargo"]
 PROPS = ["C01", "C02", "C04", "C05", "C06", "C07", "C08", "C16", "C17", "C19"]
@@ -63,7 +63,7 @@ def variants_for(idx, tier):
     return v
 
 
-def run_batch(cgs, tier, seed, keep_dir=None, variants_fn=None, owner=None):
+def run_batch(cgs, tier, seed, keep_dir=None, variants_fn=None, owner=None, debug=None):
     """-> summary dict (JSON-able).  owner(cg, prop) may re-attribute a
     disagreement (feature batches: inline, cfg, ... own what they vary)"""
     rng = random.Random(seed * 31 + 5)
@@ -181,6 +181,7 @@ def run_batch(cgs, tier, seed, keep_dir=None, variants_fn=None, owner=None):
         # runtime model (+ suffixed variants of canonical error records)
         reqs = []
         meta = {}
+        traced = {}
         rid = 0
         for m, _, starts in modules:
             if m in badset:
@@ -215,15 +216,59 @@ def run_batch(cgs, tier, seed, keep_dir=None, variants_fn=None, owner=None):
                     e[1] = rec
                 for (inp, err_at), (srec, rrec, suffixed) in plan.items():
                     rid += 1
-                    reqs.append({"rid": rid, "m": m, "start": s, "input": list(inp), "err_at": err_at})
+                    rq = {"rid": rid, "m": m, "start": s, "input": list(inp), "err_at": err_at}
+                    if rrec is not None and "#L" in rrec["id"] and backend == "table":
+                        rq["trace"] = True      # the real driver's step events, validated by TraceLR.tla
+                        traced[rid] = rrec["id"]
+                    reqs.append(rq)
                     meta[rid] = (cid, m, srec, rrec, suffixed, list(inp))
         ocs = eng_core.run_requests(binp, reqs, wd)
+        if debug is not None:
+            debug["meta"] = meta
+            debug["ocs"] = ocs
         if len(ocs) != len(reqs):
             raise ToolError("runner answered %d of %d requests" % (len(ocs), len(reqs)))
         if owner:
             for d in dis:
                 if d.get("cg"):
                     d["prop"] = owner(d["cg"], d["prop"])
+        # trace validation (impl -> spec): the recorded driver events of the long inputs against LRMachine
+        ntraces = 0
+        tstates = 0
+        if traced:
+            lbyid = {c["id"]: c for c in long_run_cases}
+            tcases = []
+            for rid_, lid in traced.items():
+                oc = ocs[rid_]
+                if "trace" not in oc or lid not in lbyid:
+                    continue
+                tc = dict(lbyid[lid])
+                tc["trace"] = oc["trace"]
+                tcases.append(tc)
+            if debug is not None:
+                debug["tcases"] = tcases
+            okids, stuck, tstates, tviol = eng_core.run_trace(tcases)
+            ntraces = len(tcases)
+            for tc in tcases:
+                if tc["id"] in okids:
+                    continue
+                m_, start_ = tc["id"].split("#")[0].split("@")
+                gid_, algo_, backend_ = m_.split("_")
+                cg_ = byid[gid_]
+                st_ = stuck.get(tc["id"], {})
+                prop_ = "C16" if cg_.get("recovery") else "C04" if st_.get("pc") in ("inner", "eof") else "C01"
+                dis.append({"prop": prop_, "kind": "driver_trace_rejected_by_model", "backend": backend_, "algo": algo_,
+                            "gid": gid_, "start": start_, "input": tc["fixed"], "err_at": None,
+                            "detail": "event %s of %s not explained by LRMachine.tla: %s" % (
+                                st_.get("at"), st_.get("of"), json.dumps(st_)[:400]),
+                            "facts": [], "cg": cg_, "suffixed": False,
+                            "raw_input": [cg_["ts"].index(t) for t in tc["fixed"]]})
+            for v in tviol:
+                m_, start_ = v["id"].split("#")[0].split("@")
+                gid_, algo_, backend_ = m_.split("_")
+                dis.append({"prop": "C16" if byid[gid_].get("recovery") else "C01", "kind": "trace_invariant_" + v["inv"],
+                            "backend": backend_, "algo": algo_, "gid": gid_, "start": start_, "input": [], "detail": "",
+                            "facts": [], "cg": byid[gid_]})
         pair = {}
         seen = set()
         for rid, (cid, m, srec, rrec, suffixed, inp) in meta.items():
@@ -304,7 +349,7 @@ def run_batch(cgs, tier, seed, keep_dir=None, variants_fn=None, owner=None):
                 "recovery_grammars": sum(1 for cg in usable if cg.get("recovery")),
                 "rejected_by_lalrpop": len(rejected), "records": sum(len(v) for v in recs.values()),
                 "record_kinds": kinds, "machine_records": sum(len(v) for v in rrecs.values()), "machine_record_kinds": rkinds,
-                "machine_recovered_parses": nrec,
+                "machine_recovered_parses": nrec, "driver_traces_validated": ntraces, "trace_states": tstates,
                 "requests": len(reqs), "states": states + rstates, "generated": generated + rgenerated,
                 "stats": stats, "disagreements": dis, "samples": samples}
     finally:
@@ -508,6 +553,50 @@ def _mk(prop):
     return lambda tier, seed: check_prop(prop, tier, seed)
 
 
+def selftest_binding():
+    """corrupt one recorded driver event / drop one / corrupt one expected value: each must be rejected"""
+    import copy
+    cargo_build_or_die(["lpdrv", "runner"])
+    rng = random.Random(4242)
+    pop = []
+    i = 0
+    while len(pop) < 6:
+        g = gen.random_grammar(rng, i, max_nt=3, max_t=2, max_prods=6, max_rhs=3, shape="layered")
+        g["id"] = "st%03d" % i
+        i += 1
+        pop.append(core.annotate(g, rng))
+    dbg = {}
+    s = run_batch(pop, "quick", 7, debug=dbg)
+    tcases = [t for t in dbg.get("tcases", []) if len(t["trace"]) >= 4]
+    if len(tcases) < 3:
+        return ("core: trace binding", False, "not enough traces recorded (%d)" % len(tcases))
+    a, b, c = copy.deepcopy(tcases[0]), copy.deepcopy(tcases[1]), copy.deepcopy(tcases[2])
+    a["id"] += "+field"
+    for ev in a["trace"]:
+        if ev["e"] in ("shift", "reduce", "eofreduce"):
+            ev["depth"] += 1          # one corrupted field
+            break
+    b["id"] += "+dropped"
+    del b["trace"][len(b["trace"]) // 2]    # one event removed
+    ok, stuck, _, _ = eng_core.run_trace([a, b, c])
+    good = (a["id"] not in ok) and (b["id"] not in ok) and (c["id"] in ok) and a["id"] in stuck and b["id"] in stuck
+    # one corrupted expectation of a replay record
+    rejected = 0
+    for rid, (cid, m, srec, rrec, suffixed, inp) in dbg["meta"].items():
+        rec = srec or rrec
+        if rec["res"]["kind"] == "ok":
+            bad = copy.deepcopy(rec)
+            bad["res"]["value"] = ["n", 99999]
+            _, algo, backend = m.split("_")
+            found = eng_core.compare(bad, dbg["ocs"][rid], algo, backend, False) if srec else \
+                eng_core.compare_exact(bad, dbg["ocs"][rid], False)
+            rejected += 1 if found else 0
+            break
+    return ("core: corrupted driver event / dropped event / corrupted expected value are rejected, intact trace accepted",
+            good and rejected == 1, "traces=%d stuck=%s" % (len(tcases), sorted(stuck)))
+
+
+SELFTESTS = [selftest_binding]
 REGISTRY = {p: _mk(p) for p in PROPS if p != "C08"}
 REGISTRY["C08_parser"] = _mk("C08")
 REPLAY = {"core": replay}
